@@ -151,6 +151,8 @@ def storage():
 
 
 def mon_C07(spec, st, t, seen):
+    if st == 'other' and not V.contains_bad(spec):
+        return ('construct-raised', f'a task over supported parameter values cannot be constructed (so it has no key): {t}')
     if st != 'ok':
         return None
     key = t.cache_key
